@@ -18,6 +18,9 @@ OBLIGATIONS = [
     "SkVerif.C20.required_rejects_different_horizon",
     "SkVerif.C20.entry_rejects_bad_window_step_sp",
     "SkVerif.C20.entry_rejects_window_not_fitting",
+    "SkVerif.C20.reducer_rejects_bad_step",
+    "SkVerif.C20.reducer_valid_step_irrelevant",
+    "SkVerif.C20.misaligned_X_rejected_by_tuner_and_split",
     "SkVerif.C20.entry_rejects_unknown_strategy",
     "SkVerif.C20.tuner_rejects_unknown_strategy",
     "SkVerif.C20.entry_rejects_ill_formed_composite",
@@ -28,7 +31,8 @@ TRUSTED = ["static table of validation calls per entry point (harness/extract/en
            "hand-written model SkVerif/Model/Validate.lean of the validators in sktime/utils/validation/{series,forecasting,__init__}.py and of the order in which each entry point calls them",
            "fractional / wrong-dtype horizon rejection is pandas' Int64Index(dtype=int) cast check = compat emulation: modelled, not verified"]
 ASSUMPTIONS = ["a malformed setting counts as applicable to an entry point only where that setting is used (NaiveForecaster(strategy='last') documents that window_length is ignored)",
-               "integer time index; datetime/period indexes out of scope"]
+               "integer time index (regular, or irregular with a gap); datetime/period indexes out of scope",
+               "composites are fitted on a regular index only: a member (PolynomialTrendForecaster) needs equally spaced time points, which is beyond the validation layer"]
 RULE = ("every enumerated fault class x every entry point that accepts it x randomised otherwise-valid context, plus the near-miss valid context itself; "
         "distinct by driver line; non-trivial = a fault case (rejection expected) or an accepted valid context")
 LEVEL_TEXT = ("Lean 4 theorems over a model of sktime's validators and of the check sequence of each forecasting entry point: each validator rejects exactly its malformed classes "
@@ -41,9 +45,14 @@ TECHNIQUE = "Lean 4 proof (decision functions over input descriptors, case analy
 
 # ------------------------------------------------------------------ fault matrix
 Y_FAULTS = ["unsorted:{n}", "empty", "frame1:{n}", "frame2:{n}", "array:{n}", "array2d:{n}", "list:{n}", "none", "floatidx:{n}"]
-X_FAULTS = ["shifted", "shorter", "unsorted", "array"]
+X_FAULTS = ["shifted", "shorter", "unsorted", "array", "interior", "first", "last", "longer"]
 FH_FAULTS = ["dup", "empty", "frac", "str", "float"]
 INT_FAULTS = ["i:0", "i:-1", "i:-5", "f:3/2", "f:2/1", "s", "b"]
+
+
+def _ytok(rng, n):
+    """a valid target: regular integer index, or (one in three) an irregular one with a gap"""
+    return ("gapped:%d" if n >= 4 and rng.random() < 1 / 3 else "ok:%d") % n
 
 
 def _base(ep, rng):
@@ -53,36 +62,41 @@ def _base(ep, rng):
         strategy = rng.choice(["last", "mean", "drift"])
         sp = rng.choice(["i:1", "i:1", "i:2", "i:3"]) if strategy != "drift" else "i:1"
         wl = rng.choice(["none", "i:%d" % rng.randrange(4, 9)])
-        return {"ep": ep, "y": "ok:%d" % n, "X": rng.choice(["none", "ok"]), "fh": rng.choice(["none", fh]), "strategy": strategy,
+        return {"ep": ep, "y": _ytok(rng, n), "X": rng.choice(["none", "ok"]), "fh": rng.choice(["none", fh]), "strategy": strategy,
                 "sp": sp, "wl": wl, "origin": rng.choice([0, 4, 5])}
     if ep == "naive_predict":
         return {"ep": ep, "n": n, "fitfh": rng.choice(["none", fh]), "fh": fh, "origin": rng.choice([0, 5])}
     if ep == "naive_update":
-        return {"ep": ep, "n": n, "y": "ok:%d" % rng.randrange(2, 6), "X": rng.choice(["none", "ok"])}
+        return {"ep": ep, "n": n, "y": _ytok(rng, rng.randrange(2, 6)), "X": rng.choice(["none", "ok"])}
     if ep == "required":
         fh3 = "r:" + ",".join(str(v) for v in sorted(rng.sample(range(1, 6), rng.choice([1, 2, 3, 3]))))
         return {"ep": ep, "n": n, "phase": rng.choice(["fit", "predict"]), "fitfh": fh3, "fh": fh3,
                 "strategy": rng.choice(["direct", "multioutput", "dirrec"])}
     if ep == "split":
         kind = rng.choice(["sliding", "expanding", "single", "cutoff"])
-        return {"ep": ep, "kind": kind, "y": "ok:%d" % n, "fh": fh, "wl": "i:%d" % rng.randrange(1, 5), "step": "i:%d" % rng.randrange(1, 3),
+        return {"ep": ep, "kind": kind, "y": _ytok(rng, n), "fh": fh, "wl": "i:%d" % rng.randrange(1, 5), "step": "i:%d" % rng.randrange(1, 3),
                 "iw": "none", "sww": True, "cutoffs": "ok", "origin": rng.choice([0, 4, 5])}
     if ep == "tts":
         mode = rng.choice(["fh", "size"])
-        return {"ep": ep, "y": "ok:%d" % n, "X": rng.choice(["none", "ok"]), "fh": fh if mode == "fh" else "none",
+        return {"ep": ep, "y": _ytok(rng, n), "X": rng.choice(["none", "ok"]), "fh": fh if mode == "fh" else "none",
                 "test": "none" if mode == "fh" else rng.choice(["none", "i:3"]), "train": "none", "origin": rng.choice([0, 4, 5])}
     if ep == "evaluate":
-        return {"origin": rng.choice([0, 4, 5]), "ep": ep, "y": "ok:%d" % n, "X": rng.choice(["none", "ok"]), "cv": "ok", "scoring": rng.choice(["none", "ok"]),
+        return {"origin": rng.choice([0, 4, 5]), "ep": ep, "y": _ytok(rng, n), "X": rng.choice(["none", "ok"]), "cv": "ok", "scoring": rng.choice(["none", "ok"]),
                 "strategy": rng.choice(["refit", "update"])}
     if ep == "gridsearch":
-        return {"origin": rng.choice([0, 4, 5]), "ep": ep, "y": "ok:%d" % n, "X": "none", "cv": "ok", "scoring": rng.choice(["none", "ok"]), "grid": "ok", "fh": rng.choice(["none", "r:1"]),
+        return {"origin": rng.choice([0, 4, 5]), "ep": ep, "y": _ytok(rng, n), "X": "none", "cv": "ok", "scoring": rng.choice(["none", "ok"]), "grid": "ok", "fh": rng.choice(["none", "r:1"]),
                 "strategy": rng.choice(["refit", "update"])}
     if ep == "reduce":
         st = rng.choice(["direct", "recursive", "multioutput", "dirrec"])
-        return {"origin": rng.choice([0, 4, 5]), "ep": ep, "y": "ok:%d" % n, "X": "none" if st == "dirrec" else rng.choice(["none", "ok"]), "fh": fh, "strategy": st,
-                "wl": "i:%d" % rng.randrange(1, 5), "scitype": rng.choice(["infer", "tabular-regressor"])}
+        # via = how the reduction forecaster is made: the make_reduction factory (strategy / scitype names, no step), or
+        # the reduction class constructed directly (the one reduction entry point that takes a step_length; None = default)
+        via = rng.choice(["factory", "class"])
+        return {"origin": rng.choice([0, 4, 5]), "ep": ep, "y": _ytok(rng, n), "X": "none" if st == "dirrec" else rng.choice(["none", "ok"]), "fh": fh, "strategy": st,
+                "wl": "i:%d" % rng.randrange(1, 5), "via": via, "step": "i:1" if via == "factory" else rng.choice(["i:1", "i:2", "i:3", "none"]),
+                "scitype": rng.choice(["infer", "tabular-regressor", "time-series-regressor"] if via == "factory" else ["tabular-regressor", "time-series-regressor"])}
     if ep == "composite":
         kind = rng.choice(["ensemble", "pipeline", "multiplexer", "stacking"])
+        # regular index only: the PolynomialTrendForecaster member cannot be fitted to unequally spaced time points
         return {"origin": rng.choice([0, 4, 5]), "ep": ep, "kind": kind, "shape": "ok", "y": "ok:%d" % n, "fh": fh, "aggfunc": rng.choice(["mean", "median", "min", "max"]), "predict": False}
     if ep == "fh":
         return {"ep": ep, "via": rng.choice(["ctor", "check"]), "fh": fh, "rel": "T", "enf": rng.random() < 0.5}
@@ -138,6 +152,8 @@ def _faults(c, rng):
             put("y:" + f.split(":")[0], y=f.format(n=3))
     if ep in ("naive_fit", "tts", "evaluate", "gridsearch", "reduce", "naive_update") and not (ep == "tts" and c["fh"] == "none"):
         for f in X_FAULTS:
+            if f == "interior" and n < 3:
+                continue      # a batch of one or two rows has no inner time point
             put("X:" + f, X=f)
     if ep in ("naive_fit", "naive_predict", "split", "reduce", "composite", "gridsearch") or (ep == "tts" and c["fh"] != "none") or ep == "fh":
         for f in FH_FAULTS:
@@ -226,8 +242,17 @@ def _faults(c, rng):
             put("grid:" + g, grid=g)
     if ep == "reduce":
         for bad in _near_miss(("direct", "recursive", "multioutput", "dirrec"), "iterated"):
-            put("strategy:unknown", strategy=bad)
-        put("scitype:unknown", scitype="regressor")
+            put("strategy:unknown", strategy=bad, via="factory", step="i:1")       # names are an argument of the factory only
+        put("scitype:unknown", scitype="regressor", via="factory", step="i:1")
+        # a step is an argument of the reduction classes only: the near-miss valid context is the same forecaster made
+        # through its class (added as a valid case when this context used the factory), then every malformed step
+        cls = {"via": "class", "scitype": "time-series-regressor" if c["scitype"] == "time-series-regressor" else "tabular-regressor"}
+        if c["via"] != "class":
+            d = copy.deepcopy(c)
+            d.update(cls, fault=None)
+            out.append(d)
+        for f in INT_FAULTS:
+            put("step:" + f, step=f, **cls)
         for f in INT_FAULTS:
             put("wl:" + f, wl=f)
         put("wl:toolong", wl="i:%d" % n)
